@@ -29,6 +29,7 @@ type c06Case struct {
 	StageAt int           `json:"first_render_after_row_operations"`
 	PreGen  bool          `json:"generator_set_at_first_render"`
 	Shared  bool          `json:"rows_also_collected_into_a_second_table"`
+	Others  int           `json:"other_html_wrappers_with_generators_of_their_own_around_the_same_table"` // rendered before the judged render; 10+n: the judged wrapper also rendered once before them
 }
 
 type c06Call struct {
@@ -169,7 +170,33 @@ func c06Check(c *Ctx, cs *c06Case, sample bool) {
 			return template.HTMLAttr(ret)
 		}, ctxObj)
 	}
+	otherCalls := 0
+	if cs.Others > 0 {
+		// other wrappers around the same table, each with a generator, context and settings of its own, render
+		// first: whatever a render leaves behind on the table belongs to the wrapper that left it
+		if cs.Others >= 10 {
+			ht.Render()
+			calls = nil
+		}
+		for k := 0; k < cs.Others%10; k++ {
+			k := k
+			o := html.Wrap(t0)
+			o.TemplateName = cs.TName
+			o.Id, o.Class, o.Caption = fmt.Sprintf("other-%d", k), "other-class", "another wrapper's caption"
+			o.SetRowClassGenerator(func(rowNum int, ctx interface{}) template.HTMLAttr {
+				otherCalls++
+				return template.HTMLAttr(fmt.Sprintf("other-wrapper-%d-row-%d", k, rowNum))
+			}, fmt.Sprintf("context of other wrapper %d", k))
+			o.Render()
+		}
+		c.Rec.Count("cases_with_other_html_wrappers_around_the_same_table", 1)
+		otherCalls = 0
+	}
 	out, err := ht.Render()
+	if otherCalls != 0 {
+		c.Rec.Violate("html:generator-of-another-wrapper-called", fmt.Sprintf("while this wrapper rendered, the row-class generator of ANOTHER html wrapper around the same table was called %d times; output %q", otherCalls, out), cs)
+		return
+	}
 	nontrivial := spec.NBody() > 0 || spec.HasHeader
 	c.Rec.Eval(gen.Hash64(spec.Shape(), fmt.Sprint(spec.HeaderTexts()), fmt.Sprint(textsOf(spec)), string(cs.ID), string(cs.Class), string(cs.Caption), fmt.Sprint(cs.Gen, cs.GenBase)), nontrivial)
 	if err != nil {
@@ -384,6 +411,9 @@ func c06Random(c *Ctx, i int, r *gen.R) {
 		cs.Staged, cs.StageAt, cs.PreGen = true, r.Range(0, len(spec.Rows)), r.Bool()
 	}
 	cs.Shared = r.Chance(1, 6)
+	if r.Chance(1, 4) {
+		cs.Others = r.Range(1, 2) + 10*r.Intn(2)
+	}
 	c06Check(c, cs, true)
 }
 
